@@ -268,6 +268,24 @@ def step (line : String) : String :=
         match Src.compute_sign (SrcEq.algOf c) (Int.ofNat I, Int.ofNat J) (some (SrcEq.pyName (c.nameOf I), SrcEq.pyName (c.nameOf J))) with
         | .ok s => toString s
         | .error e => "raise:" ++ e)
+  | ["srctables", cs] =>
+    -- the table builders of the algebra as translated from the source: stored sign table, Cayley table, grade table
+    match parseCfg cs with
+    | none => "bad-op"
+    | some c =>
+      let a := SrcEq.algOf c
+      let signs := match Src.prepare_signs a with
+        | .ok tbl => joinC (c.canonKeys.flatMap fun I => c.canonKeys.map fun J =>
+            match Py.dictGet? tbl (Int.ofNat I, Int.ofNat J) with | some s => toString s | none => "missing")
+        | .error e => "raise:" ++ e
+      let cay := match Src.cayley a with
+        | .ok tbl => joinC (c.basis.flatMap fun nI => c.basis.map fun nJ =>
+            match Py.dictGet? tbl (SrcEq.pyName nI, SrcEq.pyName nJ) with | some s => String.ofList s | none => "missing")
+        | .error e => "raise:" ++ e
+      let grades := match Src.indices_for_grade a with
+        | .ok tbl => ";".intercalate (tbl.map fun (p : Int × List Int) => toString p.1 ++ ":" ++ joinC (p.2.map toString))
+        | .error e => "raise:" ++ e
+      s!"{signs}|{cay}|{grades}"
   | ["srcsign", cs, i, j] =>
     match parseCfg cs, i.toNat?, j.toNat? with
     | some c, some I, some J =>
